@@ -77,6 +77,7 @@ func planRangeFunc(p *Prog) roundPlan {
 	planDeferGuarded(p, in, &plan)
 	planCondFuncValue(p, in, &plan)
 	planSelectDistribute(p, in, &plan)
+	planLocalSelectDistribute(p, in, &plan)
 	planDeferExplicit(p, in, &plan)
 	planSortInterface(p, in, &plan)
 	return plan
